@@ -222,6 +222,26 @@ impl<'a, E: Elem> Arg<E> for &'a mut E {
     }
 }
 
+/// A second element type for mixed-type zip/map: plain data, no `Drop`, not `Copy`.
+/// (Selects the branches of the library that are keyed on `needs_drop` of each side separately.)
+pub struct Plain(pub u32);
+pub const PLAIN_TAG: u32 = 0x2000_0000;
+impl<E: Elem> Arg<E> for Plain {
+    fn open(self, _site: u32) -> (u32, Option<E>) {
+        (PLAIN_TAG | self.0, None)
+    }
+}
+impl<'a, E: Elem> Arg<E> for &'a Plain {
+    fn open(self, _site: u32) -> (u32, Option<E>) {
+        (PLAIN_TAG | self.0, None)
+    }
+}
+impl<'a, E: Elem> Arg<E> for &'a mut Plain {
+    fn open(self, _site: u32) -> (u32, Option<E>) {
+        (PLAIN_TAG | self.0, None)
+    }
+}
+
 /// Dispose of an owned input according to the behaviour: 0 = pass through as output when
 /// possible, 1 = drop inside the callback, 2 = stash (stays live, goes to the loose pool).
 fn dispose<E: Elem>(cb: &mut Cb<E>, e: Option<E>, allow_pass: bool) -> Option<E> {
